@@ -6,7 +6,7 @@ export GOFLAGS=-mod=mod GOPROXY=off VERIF_ROOT=$ROOT
 (cd lean && lake build >/dev/null 2>&1)
 (cd harness && sort -u go.sum.own /repo/go.sum > go.sum && go build -tags verif -o bin/ ./cmd/...) || exit 2
 for seed in ${SEEDS:-101 102 103 104 105 106}; do
-  for mode in mixed snap figure8 asynccrash single zero converge; do
+  for mode in ${MODES:-all nodefuzz mixed snap figure8 asynccrash single zero converge}; do
     ./harness/bin/sim -tier ${TIER:-quick} -runs ${RUNS:-480} -mode $mode -seed $seed -workers ${WORKERS:-8} | python3 -c "
 import sys,json
 for l in sys.stdin:
